@@ -95,7 +95,6 @@ def check(ctx):
         "buffer-taking APIs (split, split_cmdargs, trim, memmem, replace_substrings, argvc_internal_split_n) receive exactly sized, non-terminated heap blocks; C-string APIs receive exactly sized terminated blocks; ASan observes reads/writes outside them",
         "memmem is called with a non-empty needle (its result for an empty needle is not fixed by the statement)",
         "split_cmdargs: a token that begins with a quote runs to the matching quote (quotes inside a token are ordinary characters)",
-        "path_remove_prefix is called on paths for which the node-by-node walk stays inside both strings (the reference yields -2 otherwise and such cases are reported)",
         "creader.h is not judged (the statement names no property of it)",
     ]
     return ctx.finish(rule="all strings up to length 3 (4-5 sampled/thorough) over {space,a,b,\",/,.,LF} through every routine + generated command lines and paths + random longer strings over all byte values; each call judged against TextUtil.tla")
